@@ -26,6 +26,13 @@ class Builtins:
             return VExc(name[4:], args)
         if name.startswith("method:"):
             return self.method(it, fn.bound, name[7:], args, kwargs, fr, node)
+        if name == "dcinit":
+            # dataclass-generated __init__ of a base class, reached through super().__init__(...)
+            q, selfv = fn.bound
+            vals = self.cdb.types.bind_fields(it, q, args, kwargs, fr)
+            for n, v in vals.items():
+                it.write_field(selfv, n, v, fr)
+            return NONE
         if name.startswith("ext:"):
             if fn.bound is not None:
                 args = [fn.bound] + list(args)
@@ -36,6 +43,9 @@ class Builtins:
         return h(it, args, kwargs, fr)
 
     # ------------------------------------------------------------------ simple builtins
+    def b_dcinit(self, it, args, kwargs, fr):
+        raise Unsupported("dcinit")
+
     def b_len(self, it, args, kwargs, fr):
         v = it.force(args[0], fr)
         if isinstance(v, (PyList, PyTuple)):
@@ -584,8 +594,10 @@ class Builtins:
 
     # ------------------------------------------------------------------ comprehensions
     def list_comp(self, it, node, fr, want_bool=False, spec_mode=False) -> SV:
+        if len(node.generators) == 2:
+            return self.nested_comp(it, node, fr, spec_mode)
         if len(node.generators) != 1:
-            raise Unsupported("nested comprehension")
+            raise Unsupported("comprehension with more than two generators")
         gen = node.generators[0]
         if gen.is_async:
             raise Unsupported("async comprehension")
@@ -690,6 +702,48 @@ class Builtins:
         it.assume(z3.Length(res) == n)
         it.assume(z3.ForAll([i], z3.Implies(z3.And(i >= 0, i < n), res[i] == ev.term)))
         it.notes.add("map comprehensions: element expression evaluated purely on a generic index")
+        return SV(TSeq(ev.ty), res)
+
+    def nested_comp(self, it, node, fr, spec_mode=False):
+        """[e for r in rows for t in r]: abstracted by membership (the multiset / order of the
+        flattened sequence is not modelled): x in result  <=>  exists i, j. x == e(rows[i][j])."""
+        g1, g2 = node.generators
+        if g1.ifs or g2.ifs:
+            raise Unsupported("filtered nested comprehension")
+        rows = it.iter_to_seq(it.force(it.eval(g1.iter, fr), fr), fr)
+        if not isinstance(rows.ty.elem, TSeq):
+            raise Unsupported("nested comprehension over a non-sequence of sequences")
+        i = it.bound("nci", z3.IntSort())
+        j = it.bound("ncj", z3.IntSort())
+        nfr = self._child_frame(fr, pure=True)
+        nfr.pure_code = True
+        row = SV(rows.ty.elem, rows.term[i])
+        it.assign(g1.target, row, nfr)
+        inner_src = it.eval(g2.iter, nfr)
+        if not (isinstance(inner_src, SV) and inner_src.term.eq(row.term)):
+            raise Unsupported("nested comprehension whose inner iterable is not the outer element")
+        guard = z3.And(i >= 0, i < z3.Length(rows.term), j >= 0, j < z3.Length(row.term))
+        it.pure_ctx.append(([i, j], guard))
+        it.binder_stack.append([])
+        saved_collect = getattr(it, "raise_collect", None)
+        it.raise_collect = None
+        try:
+            it.assign(g2.target, it.assume_wf(SV(row.ty.elem, row.term[j])), nfr)
+            ev = it.eval(node.elt, nfr)
+        finally:
+            it.pure_ctx.pop()
+            facts = it.binder_stack.pop()
+            it.raise_collect = saved_collect
+        if facts:
+            it.assume(z3.ForAll([i, j], z3.Implies(guard, z3.And(facts))))
+        if not it.eq_is_structural(ev.ty):
+            raise Unsupported("nested comprehension over elements without structural equality")
+        res = it.fresh("flat", z3.SeqSort(ev.ty.sort()))
+        x = it.bound("ncx", ev.ty.sort())
+        k = it.bound("nck", z3.IntSort())
+        it.assume(z3.ForAll([i, j], z3.Implies(guard, z3.Exists([k], z3.And(k >= 0, k < z3.Length(res), res[k] == ev.term)))))
+        it.assume(z3.ForAll([k], z3.Implies(z3.And(k >= 0, k < z3.Length(res)), z3.Exists([i, j], z3.And(guard, res[k] == ev.term)))))
+        it.notes.add("two-level comprehensions are abstracted by membership: every produced element comes from some (row, position) and vice versa; order and multiplicity are not modelled")
         return SV(TSeq(ev.ty), res)
 
     def filter_comp(self, it, node, gen, fr, n, elem_at):
